@@ -21,7 +21,9 @@ def patches(pid, d):
         for m in sorted(glob.glob(os.path.join(V, "seeded", "*", "meta.json"))):
             meta = json.load(open(m))
             if pid in (meta.get("property"), *meta.get("also", [])):
-                out.append((os.path.basename(os.path.dirname(m)), os.path.join(os.path.dirname(m), "patch.diff")))
+                d = os.path.dirname(m)
+                reb = os.path.join(d, "patch.rebased.diff")     # /repo HEAD moved since the seed was written
+                out.append((os.path.basename(d), reb if os.path.exists(reb) else os.path.join(d, "patch.diff")))
         return out
     return [(os.path.basename(p), p) for p in sorted(glob.glob(os.path.join(V, d, pid, "*.diff")))]
 
